@@ -19,7 +19,7 @@ CFG = dict(
     technique="Lean 4 proof (inductive invariant over op histories) + regenerated constants/call-site facts/fingerprints + differential run against the real "
               "ethKeyManagerSigner on a real Badger DB (restart = close/reopen) + implementation-side oracle (pairwise slashability of all released signatures per share; released => record persisted, read back after reopen; restart changes no record)",
     lean=["Ssv.Props.C04"],
-    engines=[dict(harness="ekm", driver="m_ekm", n_quick=150, n_thorough=1200, thorough_seeds=3, n_search=600, search_seeds=4, case_delim="reset")],
+    engines=[dict(harness="ekm", driver="m_ekm", n_quick=100, n_thorough=1200, thorough_seeds=3, n_search=600, search_seeds=4, case_delim="reset")],
     rule="seeded histories (18-60 ops, 1-2 shares with fresh BLS keys per history, all on one on-disk Badger DB) over {add, addfail, remove, removefail, bump, "
          "bbegin/bread/bwrite (real BumpSlashingProtection paused at its storage calls), satt, sblk (full/blinded), sattf/sblkf (the request's record write fails: storage error, or the real Badger DB is closed just before the write and then reopened), tick, restart}; every 6th history is a multi-share block (3-5 shares with different records; share 0 is asked 400-700 times for objects its own record refuses while one goroutine per other share hammers the read-only pre-checks; requests under a timeout); sources/targets/slots drawn at, "
          "just below and around the clock and the stored record; 'malformed' histories add targets/slots above the clock, source >= target, far-future values; "
